@@ -83,6 +83,9 @@ mod types;
 #[path = "../../../verif/c17.rs"]
 pub(crate) mod verif_c17;
 
+#[cfg(litep2p_verif)]
+pub(crate) use query::verif_c15;
+
 mod schema {
     pub(super) mod kademlia {
         include!(concat!(env!("OUT_DIR"), "/kademlia.rs"));
